@@ -13,6 +13,7 @@ mod rng;
 mod runner;
 mod scenario;
 mod server;
+mod syncrun;
 mod world;
 
 use std::collections::BTreeMap;
